@@ -174,24 +174,27 @@ PairHolds(PS, p, c) == PairAnte(p, c) => PairCons(PS, p, c)
 
 ---------------------------------------------------------------------------
 \* all rejections of one abstract GIR: <<clause, shape, element>>
+UseRejections(G, u) ==
+    IF u.marked THEN {}       \* every use clause speaks about unmarked owners only
+    ELSE {<<c, Shape(G, u, c), u.id>> : c \in {x \in UseClauseNames : ~UseHolds(G, u, x)}}
+PairRejections(PS, p) ==
+    {<<c, p.attr \o "-not-mutual", p.scope \o "/" \o p.name>> : c \in {x \in PairClauseNames : ~PairHolds(PS, p, x)}}
 Rejections(G) ==
     LET PS == Rng(G.pairs) IN
-    {<<c, Shape(G, G.uses[i], c), G.uses[i].id>> :
-        <<i, c>> \in {q \in (DOMAIN G.uses) \X UseClauseNames : ~UseHolds(G, G.uses[q[1]], q[2])}}
+    UNION {UseRejections(G, G.uses[i]) : i \in DOMAIN G.uses}
     \cup {<<"IndexInRange", G.idx[i].kind \o "-index-out-of-range", G.idx[i].id>> :
         i \in {j \in DOMAIN G.idx : ~IndexInRange(G.idx[j])}}
-    \cup {<<c, G.pairs[i].attr \o "-not-mutual", G.pairs[i].scope \o "/" \o G.pairs[i].name>> :
-        <<i, c>> \in {q \in (DOMAIN G.pairs) \X PairClauseNames : ~PairHolds(PS, G.pairs[q[1]], q[2])}}
+    \cup UNION {PairRejections(PS, G.pairs[i]) : i \in DOMAIN G.pairs}
 
 Closed(G) == Rejections(G) = {}
 
 AllClauseNames == UseClauseNames \cup PairClauseNames \cup {"IndexInRange", "NotJudged", "LiteralOnly"}
 \* how often each clause spoke (vacuity), plus the number of references that were skipped
-ExercisedIn(G) == [c \in AllClauseNames |->
+ExercisedCount(G, c) ==
     IF c \in UseClauseNames THEN Cardinality({i \in DOMAIN G.uses : Ante(G, G.uses[i], c)})
     ELSE IF c \in PairClauseNames THEN Cardinality({i \in DOMAIN G.pairs : PairAnte(G.pairs[i], c)})
     ELSE IF c = "IndexInRange" THEN Len(G.idx)
     ELSE IF c = "NotJudged" THEN Cardinality({i \in DOMAIN G.uses : ~G.uses[i].marked /\ G.uses[i].tag = "type" /\ G.uses[i].name # ""
                                                 /\ ~IsFund(G.uses[i]) /\ ~Known(G, G.uses[i]) /\ NotJudged(G, G.uses[i])})
-    ELSE Cardinality({i \in DOMAIN G.uses : LiteralOnly(G, G.uses[i])})]
+    ELSE Cardinality({i \in DOMAIN G.uses : LiteralOnly(G, G.uses[i])})
 =============================================================================
